@@ -135,7 +135,7 @@ for _incl, _loose, _explicit, _label in (
              modifies=['req.blocking_reason'])
 
 # ---- sub-sequence and link-disjointness helpers (lists of symbolic node identities; structure bound: lengths 2 and 4)
-contract('gnpy.topology.request.ispart', props=['C11'],
+contract('gnpy.topology.request.ispart', props=['C11', 'C12'],
          params={'ptha': lst(integer(), integer()), 'pthb': lst(integer(), integer(), integer(), integer())},
          spec='''
 def POSI(b, x):
@@ -162,7 +162,7 @@ _RQ = dict(request_id=string(), source=string(), destination=string(), tsp=strin
            nb_channel=integer(), f_min=real(), f_max=real(), format=opt(string()), OSNR=opt(real()), roll_off=opt(real()),
            tx_power=real(), bidir=boolean())
 _SAME = ' and '.join(f'req1.{f} == req2.{f}' for f in _RQ if f != 'request_id')
-contract('gnpy.topology.request.compare_reqs', name='gnpy.topology.request.compare_reqs[no disjunction]', props=['C16', 'C19'],
+contract('gnpy.topology.request.compare_reqs', name='gnpy.topology.request.compare_reqs[no disjunction]', props=['C16', 'C19', 'C13', 'C12'],
          params={'req1': obj('<ns>', **_RQ), 'req2': obj('<ns>', **_RQ), 'disjlist': const([])},
          # two requests may be merged only when every field that decides route, mode and spectrum is the same
          ensures=[('identical_in_every_deciding_field', f'iff(result, {_SAME})')],
